@@ -8,7 +8,7 @@ def seeded():
         m = json.load(open(f)); notes = m.get('needs_to_manifest', '')
         first = [l.strip('# ').strip() for l in notes.splitlines() if l.strip() and not l.startswith('```')][:1]
         er = m.get('earlier_runs') or []
-        firstrun = 'caught (' + ', '.join(er[0].get('caught_by') or []) + ')' if er and er[0].get('caught_by') else ('**missed**' if er else 'caught')
+        firstrun = 'caught (' + ', '.join(er[0].get('caught_by') or []) + ')' if er and er[0].get('caught_by') else ('**missed**' if (er or not m.get('caught_by')) else 'caught')
         if m.get('note') and 'first needed' in m['note']: firstrun = '**missed** (needed additions)'
         rows.append(f"| {m['id']} | {m['property']} | {(first[0] if first else '')[:150]} | {firstrun} | {', '.join(m.get('caught_by') or []) or '**none**'} |")
     return '\n'.join(rows)
